@@ -22,16 +22,21 @@ EXTENDS Stmt
 
 Trace == ndJsonDeserialize("trace.ndjson")
 
+CONSTANT StopOn
+
 VARIABLES l, l0,
-          real,     \* last logged real projection
-          rops,     \* last logged real op log
-          cps,      \* op-log length -> real projection logged when the log had that length (checkpoints)
+          ri,       \* line of the last event that carries a real projection (real == Trace[ri].state)
+          oi,       \* line of the last Call event (rops == Trace[oi].ops)
+          cps,      \* op-log length -> line whose real projection was logged when the log had that length (checkpoints)
           rbOK, dcOK,
-          rplan, rem, rdone,   \* real op log at CommitBegin, real Cache calls since, commit finished
+          pli, rem, rdone,     \* line of the last CommitBegin (0 = none), real Cache calls since, commit finished
           sync,     \* the model and the real state are comparable in this state
           dmsg      \* first drift noticed by an event handler ("" = none)
 
-tvars == <<vars, l, l0, real, rops, cps, rbOK, dcOK, rplan, rem, rdone, sync, dmsg>>
+tvars == <<vars, l, l0, ri, oi, cps, rbOK, dcOK, pli, rem, rdone, sync, dmsg>>
+
+real  == Trace[ri].state
+rops  == IF Trace[oi].ev = "Scenario" THEN <<>> ELSE Trace[oi].ops
 
 Starts == {i \in 1..Len(Trace) : Trace[i].ev = "Scenario"}
 
@@ -54,14 +59,14 @@ TraceInit ==
   \E i \in Starts :
     /\ l0 = i /\ l = i + 1
     /\ cfg = Trace[i].cfg
-    /\ real = Trace[i].state /\ rops = <<>>
+    /\ ri = i /\ oi = i
     /\ pod = RPods(Trace[i].state) /\ node = RNodes(Trace[i].state)
     /\ job = RJobs(Trace[i].state) /\ queue = RQueues(Trace[i].state)
     /\ ops = <<>> /\ emitted = <<>> /\ plan = <<>> /\ phase = "open" /\ ci = 0 /\ conv = FALSE
     /\ nfail = 0 /\ nstmt = 1 /\ saved = <<>> /\ hist = <<>>
     /\ act = Lbl("Init", "", "", FALSE, <<>>, 0, "", TRUE)
-    /\ cps = [x \in {0} |-> Trace[i].state]
-    /\ rbOK = TRUE /\ dcOK = TRUE /\ rplan = <<>> /\ rem = <<>> /\ rdone = TRUE
+    /\ cps = [x \in {0} |-> i]
+    /\ rbOK = TRUE /\ dcOK = TRUE /\ pli = 0 /\ rem = <<>> /\ rdone = TRUE
     /\ sync = TRUE /\ dmsg = ""
 
 Ev == Trace[l]
@@ -75,50 +80,50 @@ TraceCall ==
   /\ LET e == Ev
          L == Len(e.ops)
      IN
-     /\ real' = e.state /\ rops' = e.ops /\ sync' = TRUE /\ l' = l + 1
+     /\ ri' = l /\ oi' = l /\ sync' = TRUE /\ l' = l + 1
      /\ act' = Lbl(e.op, e.p, e.node, e.upd = 1, e.g, e.cp, e.j, e.err = 0)
      /\ CASE e.op = "Evict" ->
-               /\ SetS(EvictOp(Cur, e.p)) /\ cps' = SetCp(cps, L, e.state)
-               /\ UNCHANGED <<emitted, plan, phase, ci, conv, rbOK, dcOK, rplan, rem, rdone, dmsg>>
+               /\ SetS(EvictOp(Cur, e.p)) /\ cps' = SetCp(cps, L, l)
+               /\ UNCHANGED <<emitted, plan, phase, ci, conv, rbOK, dcOK, pli, rem, rdone, dmsg>>
           [] e.op = "Pipeline" ->
-               /\ SetS(PipelineOp(Cur, e.p, e.node, e.upd = 1, e.g)) /\ cps' = SetCp(cps, L, e.state)
-               /\ UNCHANGED <<emitted, plan, phase, ci, conv, rbOK, dcOK, rplan, rem, rdone, dmsg>>
+               /\ SetS(PipelineOp(Cur, e.p, e.node, e.upd = 1, e.g)) /\ cps' = SetCp(cps, L, l)
+               /\ UNCHANGED <<emitted, plan, phase, ci, conv, rbOK, dcOK, pli, rem, rdone, dmsg>>
           [] e.op = "Allocate" ->
-               /\ SetS(AllocateOp(Cur, e.p, e.node, e.g)) /\ cps' = SetCp(cps, L, e.state)
-               /\ UNCHANGED <<emitted, plan, phase, ci, conv, rbOK, dcOK, rplan, rem, rdone, dmsg>>
+               /\ SetS(AllocateOp(Cur, e.p, e.node, e.g)) /\ cps' = SetCp(cps, L, l)
+               /\ UNCHANGED <<emitted, plan, phase, ci, conv, rbOK, dcOK, pli, rem, rdone, dmsg>>
           [] e.op = "Unevict" ->
-               /\ SetS(UnevictEarliest(Cur, e.p)) /\ cps' = SetCp(cps, L, e.state)
-               /\ UNCHANGED <<emitted, plan, phase, ci, conv, rbOK, dcOK, rplan, rem, rdone, dmsg>>
+               /\ SetS(UnevictEarliest(Cur, e.p)) /\ cps' = SetCp(cps, L, l)
+               /\ UNCHANGED <<emitted, plan, phase, ci, conv, rbOK, dcOK, pli, rem, rdone, dmsg>>
           [] e.op = "Checkpoint" ->
-               /\ cps' = SetCp(cps, e.cp, e.state)
+               /\ cps' = SetCp(cps, e.cp, l)
                /\ dmsg' = IF dmsg = "" /\ e.cp # L THEN "Checkpoint() differs from the logged op-log length" ELSE dmsg
-               /\ UNCHANGED <<pod, node, job, queue, ops, emitted, plan, phase, ci, conv, rbOK, dcOK, rplan, rem, rdone>>
+               /\ UNCHANGED <<pod, node, job, queue, ops, emitted, plan, phase, ci, conv, rbOK, dcOK, pli, rem, rdone>>
           [] e.op = "Rollback" ->
                /\ SetS(RollbackFn(Cur, e.cp))
-               /\ rbOK' = (e.cp \in DOMAIN cps /\ RNorm(e.state) = RNorm(cps[e.cp]))
+               /\ rbOK' = (e.cp \in DOMAIN cps /\ RNorm(e.state) = RNorm(Trace[cps[e.cp]].state))
                /\ dmsg' = IF dmsg = "" /\ e.cp \notin DOMAIN cps THEN "Rollback to a checkpoint that was never logged" ELSE dmsg
-               /\ UNCHANGED <<cps, emitted, plan, phase, ci, conv, dcOK, rplan, rem, rdone>>
+               /\ UNCHANGED <<cps, emitted, plan, phase, ci, conv, dcOK, pli, rem, rdone>>
           [] e.op = "Discard" ->
                /\ SetS(DiscardFn(Cur))
-               /\ dcOK' = (RNorm(e.state) = RNorm(cps[0]))
-               /\ cps' = [x \in {0} |-> e.state] /\ conv' = FALSE
-               /\ UNCHANGED <<emitted, plan, phase, ci, rbOK, rplan, rem, rdone, dmsg>>
+               /\ dcOK' = (RNorm(e.state) = RNorm(Trace[cps[0]].state))
+               /\ cps' = [x \in {0} |-> l] /\ conv' = FALSE
+               /\ UNCHANGED <<emitted, plan, phase, ci, rbOK, pli, rem, rdone, dmsg>>
           [] e.op = "Convert" ->
                /\ SetS(ConvertFn(Cur, e.j)) /\ conv' = TRUE
-               /\ UNCHANGED <<cps, emitted, plan, phase, ci, rbOK, dcOK, rplan, rem, rdone, dmsg>>
+               /\ UNCHANGED <<cps, emitted, plan, phase, ci, rbOK, dcOK, pli, rem, rdone, dmsg>>
           [] e.op = "CommitBegin" ->
                /\ phase' = "committing" /\ ci' = 1 /\ emitted' = <<>> /\ plan' = ops
-               /\ rplan' = ROps(e.ops) /\ rem' = <<>> /\ rdone' = FALSE
+               /\ pli' = l /\ rem' = <<>> /\ rdone' = FALSE
                /\ UNCHANGED <<pod, node, job, queue, ops, cps, conv, rbOK, dcOK, dmsg>>
           [] e.op = "CommitEnd" ->
                /\ ops' = <<>> /\ phase' = "open" /\ ci' = 0 /\ conv' = FALSE /\ rdone' = TRUE
-               /\ cps' = [x \in {0} |-> e.state]
+               /\ cps' = [x \in {0} |-> l]
                /\ dmsg' = IF dmsg = "" /\ phase = "committing" /\ NextValid(ops, ci) # 0
                           THEN "Commit ended although the model has a valid operation left" ELSE dmsg
-               /\ UNCHANGED <<pod, node, job, queue, emitted, plan, rbOK, dcOK, rplan, rem>>
+               /\ UNCHANGED <<pod, node, job, queue, emitted, plan, rbOK, dcOK, pli, rem>>
           [] OTHER ->
                /\ dmsg' = IF dmsg = "" THEN "unknown Call op" ELSE dmsg
-               /\ UNCHANGED <<pod, node, job, queue, ops, cps, emitted, plan, phase, ci, conv, rbOK, dcOK, rplan, rem, rdone>>
+               /\ UNCHANGED <<pod, node, job, queue, ops, cps, emitted, plan, phase, ci, conv, rbOK, dcOK, pli, rem, rdone>>
   /\ Keep
 
 \* a Cache call made by the real Commit = one CommitStep of the model with the logged outcome
@@ -138,25 +143,23 @@ TraceCache ==
         ELSE /\ dmsg' = IF dmsg = "" THEN "Cache call although the model has no commit step left" ELSE dmsg
              /\ UNCHANGED <<pod, node, job, queue, ops, emitted, ci>>
   /\ sync' = FALSE /\ l' = l + 1
-  /\ UNCHANGED <<real, rops, cps, rbOK, dcOK, rplan, rdone, plan, phase, conv, act>>
+  /\ UNCHANGED <<ri, oi, cps, rbOK, dcOK, pli, rdone, plan, phase, conv, act>>
   /\ Keep
 
 \* a hook inside Rollback / Discard / Convert / Commit: only the real state is observed
 TraceH ==
   /\ Here("H")
-  /\ real' = Ev.state /\ sync' = FALSE /\ l' = l + 1
+  /\ ri' = l /\ sync' = FALSE /\ l' = l + 1
   /\ UNCHANGED <<pod, node, job, queue, ops, emitted, plan, phase, ci, conv, act,
-                 rops, cps, rbOK, dcOK, rplan, rem, rdone, dmsg>>
+                 oi, cps, rbOK, dcOK, pli, rem, rdone, dmsg>>
   /\ Keep
-
-TraceNext == TraceCall \/ TraceCache \/ TraceH
-TraceSpec == TraceInit /\ [][TraceNext]_tvars
 
 (***************************************************************************)
 (* Properties, on the real observations only                               *)
 (***************************************************************************)
 C13_RollbackObs == rbOK
 C13_DiscardObs  == dcOK
+rplan == IF pli = 0 THEN <<>> ELSE ROps(Trace[pli].ops)
 C13_CommitNetObs == CommitNetOK(rplan, rem, rdone)
 
 RealPodView == [p \in DOMAIN real.pods |-> [st |-> real.pods[p].st]]
@@ -177,6 +180,21 @@ C14_NodeBaseObs ==
        /\ r.ic = cfg.nodes[n].cpu - Sum(all \ on({"Pipelined"}), LAMBDA p : RC(p))
        /\ r.rc = Sum(on({"Releasing"}), LAMBDA p : RC(p)) - Sum(on({"Pipelined"}), LAMBDA p : RC(p))
        /\ r.ug = Sum(all, LAMBDA p : RG(p))
+
+\* StopOn selects the properties whose violation ends a scenario: "C13", "C14" or "all"
+Healthy == /\ (StopOn # "C14") => (C13_RollbackObs /\ C13_DiscardObs /\ C13_CommitNetObs)
+           /\ (StopOn # "C13") => (C14_JobObs /\ C14_QueueObs /\ C14_VectorObs /\ C14_NodeBaseObs)
+
+\* Reporting: the C13_ / C14_ predicates are evaluated by TLC in every state of every scenario; a FALSE one is
+\* reported with a VIOL line (CONSTRAINT Report; this avoids one counterexample reconstruction per violating
+\* scenario, of which a single genuine defect produces hundreds) and the scenario is not continued past it.
+Viol(name, ok) == ok \/ PrintT(<<"VIOL", name, l0, l>>)
+Report ==
+  /\ Viol("C13_RollbackObs", C13_RollbackObs) /\ Viol("C13_DiscardObs", C13_DiscardObs) /\ Viol("C13_CommitNetObs", C13_CommitNetObs)
+  /\ Viol("C14_JobObs", C14_JobObs) /\ Viol("C14_QueueObs", C14_QueueObs) /\ Viol("C14_VectorObs", C14_VectorObs)
+  /\ Viol("C14_NodeBaseObs", C14_NodeBaseObs)
+TraceNext == Healthy /\ (TraceCall \/ TraceCache \/ TraceH)
+TraceSpec == TraceInit /\ [][TraceNext]_tvars
 
 (***************************************************************************)
 (* Drift monitors: model prediction vs real                                *)
